@@ -51,6 +51,16 @@ CLAIMED = {
             "Every input must make the compiler return (a panic is caught in-process, an abort/stack overflow/hang by the parent's per-input watchdog and pinned to the exact input); an error that names a line names an existing line; every accepted story loads with Story::new and every divert, thread start, tunnel, function call, choice target, read count and divert-target literal in it resolves exactly (independent resolver over the JSON document, cross-checked against the runtime's content_at_path); compiling twice gives the same bytes.",
             "Trusted: the static resolver (calibrated: 0 dangling references on the reference-compiled corpus and on everything the compiler emits for the well-formed pool). Variable diverts are not statically checkable and are skipped. Open findings (validation gaps of this re-implemented compiler) are listed in known_findings.json by (reference kind, shape of the dangling path).",
             "DESIGN.md §5 C06"),
+    "C18": ("exploration",
+            "bounded exhaustive enumeration of (program, history kind) pairs, each executed as repeated create-play-drop cycles (and repeated play+reset / load-own-save on one instance) in a single-threaded worker process under a counting global allocator; the live byte count must be flat from the second cycle on",
+            "Programs chosen by where diverts point (loops into the own knot/stitch/gather, conditionals and sequences re-joining, sibling and descendant diverts, variable diverts, tunnels, recursion, threads, choices held at drop time) + the pool, the segment family and the corpus, x 5 history kinds (first choices, last choices, flows + save + load into self and into a fresh story, play+reset loop, load-own-save loop): no growth of live heap bytes after the first cycle.",
+            "Trusted: the counting allocator wrapper (exact, not sampled) and that cycle 1 absorbs all lazily initialised process state.",
+            "DESIGN.md §5 C18"),
+    "C20": ("exploration",
+            "bounded exhaustive enumeration of (story, stdin script, mode) runs of the real rinklecate binary rebuilt from /repo, compared with the library driven by the same script; strict JSON stream parsing; compile mode compared byte for byte with the library's output",
+            "Template story x every stdin script up to the length bound over a 14-entry alphabet (valid and out-of-range numbers, diverts to known/unknown/hostile paths, help, blank, quit, early end of input) x {plain, -j} (x -k), plus every hostile character (and pairs) at every text position of a story x scripts reaching every position: JSON-mode stdout is a stream of single-key objects of the documented kinds and its texts, tags, choices and issues equal the library's; plain-mode stdout equals the rendering of the library's events; compile mode writes exactly the library's output and reports compile errors with exit code, message, file and line.",
+            "Trusted: serde_json's strict stream deserializer; the harness's replay of the documented input meanings on the library.",
+            "DESIGN.md §5 C20"),
     "C19": ("exploration",
             "exhaustive walk of the object graph of every loaded story (corpus reference JSON, this compiler's output, compiled pool and segment family) with per-object and per-ordered-pair (tree distance bound) checks of the path algebra on the real Path/Object/Container code (exposed read-only through hook H4)",
             "Every runtime object: its reported path resolves from the root to that very object without approximation; path -> text -> parse is an equal path of the same relativity with the same hash; every content position (container path + index) is found again by pointer_at_path. Every ordered pair of objects within the distance bound: the relative path from a to b resolves from a to b, its text form parses back to an equal, equally hashing, equally rendering relative path, and the compact path string resolves to b.",
